@@ -114,8 +114,9 @@ impl RevocationBitmap {
     // This fix checks if the encoded string it receives as input has undergone such process
     // and undo the inner Base64 encoding before processing the input further.
     let mut data = Cow::Borrowed(data.as_ref());
-    if !data.starts_with("eJy") {
-      // Base64 encoded zlib default compression header
+    // The Base64Url text of a zlib stream with the default compression header (0x78 0x9C) starts with `eJ`; the
+    // character after it depends on the first deflate block. The legacy form is Base64 of such a text (`ZUp...`).
+    if !data.starts_with("eJ") {
       let decoded = BaseEncoding::decode(&data, Base::Base64)
         .map_err(|e| RevocationError::Base64DecodingError(data.into_owned(), e))?;
       data = Cow::Owned(
